@@ -498,6 +498,69 @@ func wlLibrary(g *hx.Gen, k int) workload {
 	}}
 }
 
+// wlCompat: schema-versus-schema compatibility through one shared schema value. The counterparts
+// are equal to it, or differ only in an object behind a reference (compatible: a default changed;
+// incompatible: a property of another type deep down), so the verdict is decided behind the
+// reference every goroutine passes through.
+func wlCompat(g *hx.Gen, k int) workload {
+	width := 12 + g.R.Intn(30)
+	kinds := make([]int, k)
+	for i := range kinds {
+		kinds[i] = g.R.Intn(4)
+	}
+	mk := func(variant int) *schema.ScopeSchema {
+		leafProps := map[string]*schema.PropertySchema{}
+		for i := 0; i < width; i++ {
+			var t schema.Type = schema.NewIntSchema(nil, nil, nil)
+			if i%3 == 1 {
+				t = schema.NewStringSchema(nil, nil, nil)
+			}
+			if i%3 == 2 {
+				t = schema.NewListSchema(schema.NewMapSchema(schema.NewStringSchema(nil, nil, nil), schema.NewBoolSchema(), nil, nil), nil, nil)
+			}
+			leafProps[fmt.Sprintf("f%02d", i)] = prop(t, nil)
+		}
+		switch variant {
+		case 1: // incompatible: the last field has another type
+			leafProps[fmt.Sprintf("f%02d", width-1)] = prop(schema.NewFloatSchema(nil, nil, nil), nil)
+		case 2: // incompatible: the first field has another type
+			leafProps["f00"] = prop(schema.NewBoolSchema(), nil)
+		case 3: // compatible: one more optional field is missing on neither side, a default differs
+			d := "3"
+			leafProps["f00"] = prop(schema.NewIntSchema(nil, nil, nil), &d)
+		}
+		return schema.NewScopeSchema(
+			schema.NewObjectSchema("root", map[string]*schema.PropertySchema{
+				"left":  prop(schema.NewRefSchema("mid", nil), nil),
+				"right": prop(schema.NewListSchema(schema.NewRefSchema("leaf", nil), nil, nil), nil),
+			}),
+			schema.NewObjectSchema("mid", map[string]*schema.PropertySchema{
+				"leaf": prop(schema.NewRefSchema("leaf", nil), nil),
+				"n":    prop(schema.NewIntSchema(nil, nil, nil), nil),
+			}),
+			schema.NewObjectSchema("leaf", leafProps))
+	}
+	return workload{kind: "compat", build: func() ([]thunk, error) {
+		shared := mk(0)
+		others := []*schema.ScopeSchema{mk(0), mk(1), mk(2), mk(3)}
+		var ts []thunk
+		for i := 0; i < k; i++ {
+			o := others[kinds[i]]
+			switch i % 3 {
+			case 0:
+				ts = append(ts, thunk{"compat.scope", func() string { return "C:" + class(shared.ValidateCompatibility(o)) }})
+			case 1:
+				ts = append(ts, thunk{"compat.object", func() string {
+					return "C:" + class(shared.Objects()["mid"].ValidateCompatibility(o.Objects()["mid"]))
+				}})
+			default:
+				ts = append(ts, thunk{"compat.reversed", func() string { return "C:" + class(o.ValidateCompatibility(shared)) }})
+			}
+		}
+		return ts, nil
+	}}
+}
+
 func deepCopy(x any) any {
 	switch v := x.(type) {
 	case map[string]any:
@@ -660,7 +723,7 @@ func runTrial(seed int64, trial int, maxG int, only string, sequential bool) tri
 	G := 2 + g.R.Intn(maxG-1)
 	K := G * (1 + g.R.Intn(4))
 	// which workload comes first differs between processes, so every kind of first use gets raced
-	makers := []func(*hx.Gen, int) workload{wlGenerated, wlRebuilt, wlLibrary, wlUnits, wlMeta, wlSchema, wlSteps, wlLibrary, wlRebuilt}
+	makers := []func(*hx.Gen, int) workload{wlGenerated, wlRebuilt, wlLibrary, wlUnits, wlMeta, wlSchema, wlSteps, wlLibrary, wlRebuilt, wlCompat}
 	var wl workload
 	if only != "" {
 		for {
